@@ -20,7 +20,17 @@
 EXTENDS Integers, Sequences, FiniteSets, TLC
 
 (* ---- storage ---- *)
-InsideStorage(iv, size) == 0 <= iv[1] /\ iv[1] <= iv[2] /\ iv[2] <= size
+(* The caller describes rows: row r occupies the rb bytes (its pixels, rounded up to whole 32-bit words) starting  *)
+(* at r * stride from the lowest address; the padding between rows and after the last row is NOT part of the      *)
+(* image (it may belong to a larger surface of which the image is a window).  An accessed interval [lo, hi) is    *)
+(* inside the storage iff it lies within the rows: with contiguous rows (stride = rb) anywhere below the end,     *)
+(* otherwise within a single row's bytes.                                                                        *)
+InsideStorage(iv, im) ==
+    /\ 0 <= iv[1] /\ iv[1] <= iv[2] /\ iv[2] <= im.size
+    /\ \/ iv[1] = iv[2]
+       \/ im.stride = im.rb
+       \/ /\ iv[1] \div im.stride = (iv[2] - 1) \div im.stride
+          /\ (iv[2] - 1) % im.stride < im.rb
 
 (* ---- positions: fixed point with One units per pixel (65536 in the library; small in the model) ---- *)
 (* source position of the centre of destination pixel (x, y) under the affine part of matrix m,       *)
